@@ -3,6 +3,7 @@
 import hashlib
 import json
 import os
+import re
 import shutil
 import signal
 import subprocess
@@ -244,9 +245,18 @@ class RunResult:
         return None
 
 
+_PIDLIKE = re.compile(r"\d{2,}")
+_PIDNAME = re.compile(r"\d{2,}(?=\.(?:dump|ctu-info|txt))")
+
+
 def trace_hash(lines):
+    """Interleaving identity. File names that embed the process id (temporary dump / file-list names) are normalised."""
     h = hashlib.sha256()
     for l in lines:
+        if l.startswith("O "):
+            l = _PIDLIKE.sub("N", l)
+        elif ".dump" in l or ".ctu-info" in l or ".txt" in l:
+            l = _PIDNAME.sub("PID", l)
         h.update(l.encode("utf-8", "replace"))
         h.update(b"\n")
     return h.hexdigest()[:16]
